@@ -1,4 +1,316 @@
-import FluentModel.Serializer
+import FluentProofs.SerializerEntries
+/-!
+# C04 — serializer round trip
+
+Model: `FluentModel/Serializer.lean` (`Serializer` + `TextWriter`, function for function) and
+`FluentModel/Parser.lean`.  The two full statements are the `def`s `C04_roundtrip_statement` and
+`C04_fixpoint_statement` below; they are **not** proved in full.  What is proved, for all trees /
+all inputs (structural induction over the mutual AST types):
+
+* T1a `serialize_total` — the serializer never panics (`dedent` never underflows), any tree shape;
+* T1b `writeLiteral_discipline`, `newline_discipline`, `writeCharIntoIndent_discipline`,
+  `star_only_replaces_indentation` — what the `TextWriter` primitives do to the buffer;
+* T1c `writeLiteral_join_iff`, `serialize_congr`, `serialize_congr_lineSplit`,
+  `fixpoint_of_roundtrip_lineSplit` — the exact congruence under joining text elements;
+* T2 `inline_serialize`, `inline_roundtrip`, `inline_roundtrip_source` — every valid inline
+  expression (all seven forms, call arguments, nested placeables) is parsed back;
+* T2 `pattern_roundtrip_singleline`, `roundtrip_singleline_partial` — the full round trip and fixed
+  point (through `parse`, with the fuel `parse` passes) for resources of messages/terms with
+  single-line values.
+
+Missing for the full statements (T3): multi-line patterns (`get_pattern`'s indentation stripping
+against `serialize_pattern`'s indentation), selects/variants, attributes, comments, Junk, and "the
+parser produces line-split text elements / trees of the shape the theorems assume".
+-/
 namespace FluentProofs.C04
-theorem placeholder : True := trivial
+open FluentModel FluentModel.Syntax FluentModel.Syntax.Ser FluentProofs.Parser FluentProofs.Ser
+
+/-! ## the full statements (kept visible; not proved in full) -/
+
+/-- **C04 round trip (full statement, open).**  For every source string and both options: if the
+parser gives the tree `t`, then serialising `t` succeeds with some text `out`, parsing `out`
+succeeds with a tree `t'`, and `t'` equals `t` under `norm` (adjacent text elements joined
+recursively, whitespace-only comment lines equal to empty ones, Junk dropped when `¬withJunk`).
+
+Not proved.  Proved parts: `serialize_total` (the `∃ out`), `inline_roundtrip` (the inline
+expression layer).  Missing: the pattern layer (`get_pattern`'s indentation stripping against
+`serialize_pattern`'s indentation), select expressions, attributes, comments, Junk and the entry
+loop. -/
+def C04_roundtrip_statement : Prop :=
+  ∀ (str : String) (withJunk : Bool) (t : Resource Span) (errs : List PErr),
+    parse str.toUTF8.data = .done (t, errs) →
+    ∃ out, Ser.serialize withJunk (resolve str.toUTF8.data t) = some out ∧
+      ∃ t' errs', parse out.toArray = .done (t', errs') ∧
+        norm withJunk (resolve out.toArray t') = norm withJunk (resolve str.toUTF8.data t)
+
+/-- **C04 fixed point (full statement, open).**  Serialising the re-parsed tree reproduces the text
+byte for byte.
+
+Not proved.  `fixpoint_of_roundtrip_lineSplit` reduces it to the round trip plus "both trees are
+line-split" (which is how the parser cuts text; that fact about `get_pattern` is not proved here). -/
+def C04_fixpoint_statement : Prop :=
+  ∀ (str : String) (withJunk : Bool) (t : Resource Span) (errs : List PErr),
+    parse str.toUTF8.data = .done (t, errs) →
+    ∀ out, Ser.serialize withJunk (resolve str.toUTF8.data t) = some out →
+      ∀ t' errs', parse out.toArray = .done (t', errs') →
+        Ser.serialize withJunk (resolve out.toArray t') = some out
+
+/-! ## T1a — totality -/
+
+/-- **T1a.**  For every resource — any tree shape, not only parser output — and both options the
+serializer returns a text: the `expect` in `TextWriter::dedent` is unreachable.  (Invariant, by
+mutual structural induction over `Inline`/`Expr`/`Variant`/`PatElem`: every serializer function
+returns `some` writer with the `indentLevel` it was given — `Ser.serInline_keeps` …
+`Ser.serResourceGo_keeps`.) -/
+theorem serialize_total (withJunk : Bool) (r : Resource Bytes) : Ser.serialize withJunk r ≠ none := by
+  obtain ⟨out, h⟩ := serialize_isSome withJunk r
+  rw [h]; exact fun h => by cases h
+
+/-- every expression/pattern-level serializer function keeps the indent level and never fails -/
+theorem serializer_keeps_indent (w : Writer) :
+    (∀ e, ∃ w', serInline w e = some w' ∧ w'.indentLevel = w.indentLevel) ∧
+    (∀ e, ∃ w', serExpr w e = some w' ∧ w'.indentLevel = w.indentLevel) ∧
+    (∀ v, ∃ w', serVariant w v = some w' ∧ w'.indentLevel = w.indentLevel) ∧
+    (∀ p, ∃ w', serPattern w p = some w' ∧ w'.indentLevel = w.indentLevel) :=
+  ⟨fun e => serInline_keeps e w, fun e => serExpr_keeps e w, fun v => serVariant_keeps v w,
+   fun p => serPattern_keeps p w⟩
+
+/-! ## T1b — writer discipline -/
+
+/-- **T1b, `write_literal`.**  It only appends.  Right after a line break the line starts with
+exactly `4 · indentLevel` spaces followed by the literal; elsewhere the literal is appended, preceded
+by one extra `\r` iff the buffer ends with `\r` and the literal starts with `\n`. -/
+theorem writeLiteral_discipline (w : Writer) (item : Bytes) :
+    (endsWith w 10 = true →
+      (w.writeLiteral item).buffer = w.buffer ++ spaces (4 * w.indentLevel) ++ item.toArray) ∧
+    (endsWith w 10 = false →
+      (w.writeLiteral item).buffer =
+        w.buffer ++ (if endsWith w 13 && item.head? == some 10 then #[13] else #[]) ++ item.toArray) ∧
+    (w.writeLiteral item).indentLevel = w.indentLevel :=
+  ⟨writeLiteral_after_newline w item, writeLiteral_mid_line w item, writeLiteral_indentLevel w item⟩
+
+/-- **T1b, `newline`.**  Appends `\n`, after a second `\r` if the buffer ends with `\r`; afterwards
+the buffer ends with `\n`. -/
+theorem newline_discipline (w : Writer) :
+    w.newline.buffer = w.buffer ++ (if endsWith w 13 then #[13, 10] else #[10]) ∧
+    endsWith w.newline 10 = true ∧ w.newline.indentLevel = w.indentLevel :=
+  ⟨newline_buffer w, newline_endsWith w, rfl⟩
+
+/-- **T1b, `write_char_into_indent`.**  At the start of a line inside indent level `k + 1` it appends
+`4k + 3` spaces and the character (i.e. the last indentation space is replaced, nothing older is
+touched); in general, when the buffer ends with a non-continuation byte `x ≠ '\n'`, exactly `x` is
+replaced. -/
+theorem writeCharIntoIndent_discipline (w : Writer) (ch : UInt8) :
+    (∀ k, endsWith w 10 = true → w.indentLevel = k + 1 →
+      (w.writeCharIntoIndent ch).buffer = w.buffer ++ spaces (4 * k + 3) ++ #[ch]) ∧
+    (∀ (b : Array UInt8) (x : UInt8), w.buffer = b.push x → x ≠ 10 → (x &&& 0xC0) ≠ 0x80 → (w.writeCharIntoIndent ch).buffer = b.push ch) :=
+  ⟨fun k h hk => writeCharIntoIndent_after_newline w ch k h hk,
+   fun b x h h1 h2 => writeCharIntoIndent_mid_line w ch x b h h1 h2⟩
+
+/-- **T1b, the `*` of a default variant only ever replaces an indentation space.**  Serialising a
+select expression calls `write_char_into_indent` only at the start of a line inside indent level
+≥ 1: `serialize_expression` equals the variant loop `serVariantsSpec`, in which the `*` is appended
+after `4·indentLevel − 1` spaces (`starIndent`) and no byte of the buffer is ever removed. -/
+theorem star_only_replaces_indentation (w : Writer) (sel : Inline Bytes) (vs : List (Variant Bytes)) :
+    serExpr w (.select sel vs) =
+      match serInline w sel with
+      | none => none
+      | some w1 =>
+        match serVariantsSpec (((w1.writeLiteral (lit " ->")).newline).indent) vs with
+        | none => none
+        | some w3 => w3.dedent :=
+  serExpr_select_eq w sel vs
+
+/-! ## T1c — congruence -/
+
+/-- **T1c, two literals.**  For non-empty `a`: writing `a` then `b` gives the same writer as writing
+`a ++ b` **iff** no indentation is inserted between them (`a` does not end with `\n`, or the indent
+level is 0) and no `\r` is doubled (`a` ends with `\r` and `b` starts with `\n`). -/
+theorem writeLiteral_join_iff (w : Writer) (a b : Bytes) (ha : a ≠ []) :
+    (w.writeLiteral a).writeLiteral b = w.writeLiteral (a ++ b) ↔
+      (a.getLast? = some 10 → w.indentLevel = 0) ∧ ¬(a.getLast? = some 13 ∧ b.head? = some 10) :=
+  Ser.writeLiteral_join_iff w a b ha
+
+/-- **T1c `serialize_congr`, the congruence that is true.**  For every resource and both options:
+joining every adjacent pair of text elements `a, b` with `JoinOK a b` (`a ≠ []`, `a` does not end
+with `\n`, not (`a` ends with `\r` and `b` starts with `\n`)) in every pattern of the tree
+(recursively), replacing whitespace-only comment lines by empty ones and dropping Junk when
+`¬withJunk` (`normSafe`) leaves the output unchanged; `is_multiline` / `has_leading_text_dot` agree
+(`Ser.isMultiline_nPat`, `Ser.hasLeadingTextDot_nPat`).  The unrestricted `norm` does **not** have
+this property: `[text "a\n", text "b"]` is written with indentation before `b`,
+`[text "a\nb"]` without. -/
+theorem serialize_congr (withJunk : Bool) (r : Resource Bytes) :
+    Ser.serialize withJunk (normSafe withJunk r) = Ser.serialize withJunk r :=
+  serialize_normSafe withJunk r
+
+/-- **T1c for parser-shaped trees.**  Two line-split resources (`LineSplit`: every text element is
+non-empty, contains `\n` only as its last byte and no `\r\n`) that are equal under the property's
+comparison `norm` serialise to the same bytes. -/
+theorem serialize_congr_lineSplit (withJunk : Bool) (r₁ r₂ : Resource Bytes) (h₁ : LineSplit r₁) (h₂ : LineSplit r₂)
+    (h : norm withJunk r₁ = norm withJunk r₂) : Ser.serialize withJunk r₁ = Ser.serialize withJunk r₂ :=
+  Ser.serialize_congr_lineSplit withJunk r₁ r₂ h₁ h₂ h
+
+/-- **`fixpoint` is a corollary of `roundtrip` for line-split trees** (conditional form of
+`C04_fixpoint_statement`): if the tree `t` and the re-parsed tree `t'` are line-split and equal under
+`norm`, the second serialisation reproduces `out`. -/
+theorem fixpoint_of_roundtrip_lineSplit (withJunk : Bool) (t t' : Resource Bytes) (out : Bytes)
+    (hout : Ser.serialize withJunk t = some out) (hls : LineSplit t) (hls' : LineSplit t')
+    (hnorm : norm withJunk t' = norm withJunk t) : Ser.serialize withJunk t' = some out := by
+  rw [Ser.serialize_congr_lineSplit withJunk t' t hls' hls hnorm, hout]
+
+/-! ## T2 — inline expressions -/
+
+/-- **T2, serializer half.**  For a valid inline expression the serializer writes exactly the text
+`inlineBytes e`, as if by a single `write_literal`, whatever the writer's state. -/
+theorem inline_serialize (e : Inline Bytes) (hv : validInline e = true) (w : Writer) :
+    serInline w e = some (w.writeLiteral (inlineBytes e)) :=
+  (serInline_eq_bytes e hv w).1
+
+/-- **T2 `inline_roundtrip`.**  See `Ser.inline_roundtrip`: for every `validInline` expression `e`
+(identifiers / number literals well-shaped, string literals with valid escapes only and no raw
+newline or quote, callee upper-case, named-argument names unique with literal values, no select and
+no term attribute inside a nested placeable) and every writer `w`, the serializer writes one literal
+`out`, and on every source with the `&str` invariant that contains `out` at `p` followed by something
+that cannot extend the expression, `get_inline_expression` returns `e'` with `resolve e' = e` and
+stops at `endPos e s (p + out.length)`. -/
+theorem inline_roundtrip (e : Inline Bytes) (hv : validInline e = true) (w : Writer) :
+    ∃ out, serInline w e = some (w.writeLiteral out) ∧
+      ∀ (s : Src) (p fuel : Nat), AsciiThenBoundary s → At s p out → Follow s (p + out.length) →
+        fuelInline e ≤ fuel →
+        ∃ e', getInline s fuel false p = .ok e' (endPos e s (p + out.length)) ∧ e'.mapS (spanBytes s) = e :=
+  Ser.inline_roundtrip e hv w
+
+/-- **T2, concrete form**: `pre ++ serialise(e) ++ rest` with `rest` starting with `,` `)` `}` or `:`
+is parsed back to `e`, stopping exactly at `rest`. -/
+theorem inline_roundtrip_source (e : Inline Bytes) (hv : validInline e = true) (pre rest : Bytes) (c : UInt8)
+    (hc : c = 44 ∨ c = 41 ∨ c = 125 ∨ c = 58) (hrest : rest.head? = some c) (fuel : Nat) (hfuel : fuelInline e ≤ fuel) :
+    ∃ out, (serInline {} e).map (fun w => w.buffer.toList) = some out ∧
+      (AsciiThenBoundary (pre ++ out ++ rest).toArray →
+        ∃ e', getInline (pre ++ out ++ rest).toArray fuel false pre.length = .ok e' (pre.length + out.length) ∧
+          e'.mapS (spanBytes (pre ++ out ++ rest).toArray) = e) :=
+  Ser.inline_roundtrip_source e hv pre rest c hc hrest fuel hfuel
+
+/-! ## T2 — single-line patterns and entries -/
+
+/-- **T2, pattern level.**  For a valid single-line pattern `es` (`validSingleLine`) the serializer
+writes ` ` followed by `patBytes es` (`Ser.serPattern_eq`), and on every source with the `&str`
+invariant that contains `" " ++ patBytes es ++ "\n"` at `p` and continues with the end of input or a
+line that cannot continue the pattern, `get_pattern` returns a pattern that resolves to `es` and
+stops behind the line feed. -/
+theorem pattern_roundtrip_singleline (es : List (PatElem Bytes)) (hv : validSingleLine es = true) :
+    (∀ (w : Writer) (acc : Bytes), tidy acc = true →
+      serPattern (w.writeLiteral acc) es = some (w.writeLiteral (acc ++ 32 :: patBytes es))) ∧
+    (∀ (s : Src) (p n : Nat), AsciiThenBoundary s → At s p (32 :: (patBytes es ++ [10])) →
+      LineEndOK s (p + 1 + (patBytes es).length + 1) → fuelPat es + 1 ≤ n →
+      ∃ els, getPattern s n p = .ok (some els) (p + 1 + (patBytes es).length + 1) ∧
+        mapPat (spanBytes s) els = es) :=
+  ⟨fun w acc ha => (serPattern_eq es (validSingleLine_elems hv) w acc ha).1,
+   fun _ p n hs h hend hn => getPattern_singleline hs es hv p n h hend hn⟩
+
+/-- **T2 `roundtrip_singleline_partial`** — both full statements, restricted to trees of messages and
+terms with single-line values.  For every resource all of whose entries satisfy `validSimpleEntry`
+(message or term; identifier well-shaped; value a `validSingleLine` pattern: non-empty, texts
+non-empty without `\n` `\r` `{` `}`, placeables with `validInline` expressions and no select / term
+attribute, no adjacent texts, no leading or trailing space; no attributes; no comment) and both
+options: `serialize` returns `out`; if `out` has the `&str` invariant (true whenever the tree's
+strings are UTF-8) then `parse out` — with the fuel `parse` itself passes — returns, with an empty
+error list, a tree that resolves to **exactly** `r` (hence equal under `norm`), and serialising the
+re-parsed tree gives `out` again.
+
+`_partial`: multi-line patterns, selects, attributes, comments and Junk are not covered, and the
+quantification is over trees of this shape rather than over sources. -/
+theorem roundtrip_singleline_partial (withJunk : Bool) (r : Resource Bytes)
+    (hv : ∀ e ∈ r, validSimpleEntry e = true) :
+    ∃ out, Ser.serialize withJunk r = some out ∧
+      (AsciiThenBoundary out.toArray →
+        ∃ t', parse out.toArray = .done (t', []) ∧ resolve out.toArray t' = r ∧
+          norm withJunk (resolve out.toArray t') = norm withJunk r ∧
+          Ser.serialize withJunk (resolve out.toArray t') = some out) := by
+  obtain ⟨out, h1, h2⟩ := roundtrip_singleline withJunk r hv
+  refine ⟨out, h1, fun hs => ?_⟩
+  obtain ⟨t', h3, h4, h5⟩ := h2 hs
+  exact ⟨t', h3, h4, by rw [h4], h5⟩
+
+/-! ## non-vacuity and sanity tests (`decide +kernel` on literals: these are tests, not proofs of the property) -/
+
+/-- the two full statements evaluated on one source (test helper): serialise, re-parse, compare under
+`norm` (via the canonical S-expression), serialise again and compare the bytes -/
+def roundtripHolds (src : Src) (withJunk : Bool) : Bool :=
+  match parse src with
+  | .done (t, _) =>
+    match Ser.serialize withJunk (resolve src t) with
+    | some out =>
+      match parse out.toArray with
+      | .done (t', _) =>
+        (norm withJunk (resolve out.toArray t')).sexp == (norm withJunk (resolve src t)).sexp &&
+          Ser.serialize withJunk (resolve out.toArray t') == some out
+      | _ => false
+    | none => false
+  | _ => false
+
+/-- test: select with a call and a default variant, a comment attached to a term with an attribute:
+`a = { $x ->\n    [one] One\n   *[other] { FOO(1, x: "y") } b\n }\n# c\n-t = v\n    .attr = w\n`, both options -/
+example : (roundtripHolds #[97, 32, 61, 32, 123, 32, 36, 120, 32, 45, 62, 10, 32, 32, 32, 32, 91, 111, 110, 101, 93, 32,
+    79, 110, 101, 10, 32, 32, 32, 42, 91, 111, 116, 104, 101, 114, 93, 32, 123, 32, 70, 79, 79, 40, 49, 44, 32, 120, 58,
+    32, 34, 121, 34, 41, 32, 125, 32, 98, 10, 32, 125, 10, 35, 32, 99, 10, 45, 116, 32, 61, 32, 118, 10, 32, 32, 32, 32,
+    46, 97, 116, 116, 114, 32, 61, 32, 119, 10] true &&
+  roundtripHolds #[97, 32, 61, 32, 123, 32, 36, 120, 32, 45, 62, 10, 32, 32, 32, 32, 91, 111, 110, 101, 93, 32,
+    79, 110, 101, 10, 32, 32, 32, 42, 91, 111, 116, 104, 101, 114, 93, 32, 123, 32, 70, 79, 79, 40, 49, 44, 32, 120, 58,
+    32, 34, 121, 34, 41, 32, 125, 32, 98, 10, 32, 125, 10, 35, 32, 99, 10, 45, 116, 32, 61, 32, 118, 10, 32, 32, 32, 32,
+    46, 97, 116, 116, 114, 32, 61, 32, 119, 10] false) = true := by decide +kernel
+
+/-- test (finding F8 shape, fixed tree): multi-line value whose first text starts with `.`: `a = .x\n    y\n` -/
+example : roundtripHolds #[97, 32, 61, 32, 46, 120, 10, 32, 32, 32, 32, 121, 10] true = true := by decide +kernel
+
+/-- test (finding F18 shape, fixed tree): Junk followed by a free comment, serialised without junk:
+`a = 1\nerr {\n\n# c\n\nb = 2\n` -/
+example : roundtripHolds #[97, 32, 61, 32, 49, 10, 101, 114, 114, 32, 123, 10, 10, 35, 32, 99, 10, 10, 98, 32, 61, 32,
+    50, 10] false = true := by decide +kernel
+
+/-- test: CRLF inside a multi-line pattern and a term-attribute selector with a named argument:
+`a =\n    line1\r\n    line2 { -t.a(k: 1) ->\n       *[o] v\n    }\n` -/
+example : roundtripHolds #[97, 32, 61, 10, 32, 32, 32, 32, 108, 105, 110, 101, 49, 13, 10, 32, 32, 32, 32, 108, 105, 110,
+    101, 50, 32, 123, 32, 45, 116, 46, 97, 40, 107, 58, 32, 49, 41, 32, 45, 62, 10, 32, 32, 32, 32, 32, 32, 32, 42, 91,
+    111, 93, 32, 118, 10, 32, 32, 32, 32, 125, 10] true = true := by decide +kernel
+
+/-- test: `validInline` is satisfiable by an expression using every form:
+`FOO(1, "s\\u00e9", $v, m, m.a, -t, -t.b(x: -1.5), { 2 }, x: 1, y: "z")` -/
+example : validInline (.fn [70, 79, 79]
+    [.num [49], .str [115, 92, 117, 48, 48, 101, 57], .var [118], .msg [109] none, .msg [109] (some [97]),
+     .term [116] none none, .term [116] (some [98]) (some ([], [([120], .num [45, 49, 46, 53])])),
+     .placeable (.inline (.num [50]))]
+    [([120], .num [49]), ([121], .str [122])]) = true := by decide +kernel
+
+/-- test: the text written for that expression -/
+example : inlineBytes (.fn [70, 79, 79] [.num [49], .msg [109] (some [97])] [([120], .num [49])]) =
+    "FOO(1, m.a, x: 1)".toUTF8.data.toList := by decide +kernel
+
+/-- test: `validSimpleEntry` is satisfiable — `a = x { FOO(1, k: "v") } y{{ $z }}` and `-t = { -u.a(n: 1) }`… -/
+example : (validSimpleEntry (.message ⟨[97], some [.text [120, 32],
+      .placeable (.inline (.fn [70, 79, 79] [.num [49]] [([107], .str [118])])), .text [32, 121],
+      .placeable (.inline (.placeable (.inline (.var [122]))))], [], none⟩) &&
+    validSimpleEntry (.term ⟨[116], [.placeable (.inline (.fn [85] [.term [117] (some [97]) (some ([], [([110], .num [49])]))] []))],
+      [], none⟩)) = true := by decide +kernel
+
+/-- test: the line written for the first of them -/
+example : entryBytes (.message ⟨[97], some [.text [120, 32],
+      .placeable (.inline (.fn [70, 79, 79] [.num [49]] [([107], .str [118])])), .text [32, 121],
+      .placeable (.inline (.placeable (.inline (.var [122]))))], [], none⟩) =
+    "a = x { FOO(1, k: \"v\") } y{{ $z }}\n".toUTF8.data.toList := by decide +kernel
+
+/-- test: the unrestricted `norm` is *not* a congruence — `[text "x\n", text "y"]` and `[text "x\ny"]`
+have the same `norm` but serialise differently (continuation indented / not indented) -/
+example :
+    let r₁ : Resource Bytes := [.message ⟨[97], some [.text [120, 10], .text [121]], [], none⟩]
+    let r₂ : Resource Bytes := [.message ⟨[97], some [.text [120, 10, 121]], [], none⟩]
+    ((norm true r₁).sexp == (norm true r₂).sexp && Ser.serialize true r₁ != Ser.serialize true r₂) = true := by
+  decide +kernel
+
+/-- test: a line-split tree (hypothesis of `serialize_congr_lineSplit`) -/
+example : LineSplit [.message ⟨[97], some [.text [120, 10], .text [121]], [], none⟩] := by
+  intro e he
+  simp at he
+  subst he
+  simp [lsEntry, lsPat, lsElem, lineText]
+
 end FluentProofs.C04
